@@ -4,14 +4,16 @@
 (* (closed under complement) within the length bounds, text =                *)
 (* concat(s $ revcomp(s) $), every Occ rate in OccRates (0 = counting        *)
 (* definition, else the Occ machine of C04), every pattern over Alpha of     *)
-(* length <= MaxP, every position i and every l in MinLens:                  *)
+(* length <= MaxP, every position i and every l in MinLens (with            *)
+(* AllSentinelOrders: on the suffix array of every admissible order of the   *)
+(* sentinel occurrences, not only the code's):                               *)
 (*   Start(P,i,l)  init_interval_with(P[i])                                  *)
 (*   FwdStep       one forward extension (candidate pushed when size changes)*)
 (*   FwdDone       last interval pushed, list reversed, becomes `prev`       *)
 (*   BwdStep       one outer iteration k = i-1 .. -1 of the backward sweep   *)
 (*                 (inner loop over prev: extension, report, dedup by size)  *)
 EXTENDS SuffixIndex
-CONSTANTS Alpha, MaxLen1, MaxTotal2, MaxP, MinLens, OccRates, T
+CONSTANTS Alpha, MaxLen1, MaxTotal2, MaxP, MinLens, OccRates, T, AllSentinelOrders
 
 VARIABLES seqs, t, sa, ix, mode, q, fs, bs
 vars == <<seqs, t, sa, ix, mode, q, fs, bs>>
@@ -27,7 +29,8 @@ Init ==
     /\ seqs \in SeqSets
     /\ Len(seqs) = 2 => Len(seqs[1]) + Len(seqs[2]) <= MaxTotal2
     /\ t = FmdText(seqs)
-    /\ sa = SortedSA(t)
+    \* the suffix array under the code's sentinel order, or under every admissible order of the sentinels
+    /\ sa \in (IF AllSentinelOrders THEN AdmissibleSAs(t) ELSE {SortedSA(t)})
     /\ \E k \in OccRates : ix = MkIndex(t, sa, k, T, Range(CompOrder))
     /\ mode = "idle" /\ q = NoQ /\ fs = 0 /\ bs = 0
 
